@@ -334,3 +334,46 @@ Definition set_block {A} (res : list (list (list A))) (i : Z) (a : list (list A)
    represented: tag 35 is then not a Python behaviour; the translated function always passes n = v.shape[0]) *)
 Definition np_col_times_ones (v : list Qc) (n e : Z) : result arr2 :=
   if (Z.of_nat (length v) =? n)%Z then Ok (map (fun x => repeat (x * 1) (Z.to_nat e)) v) else Err 35%Z.
+
+(* ---- vocabulary of the translations of the two non-numeric statement runs of dbal_fast_gauss_scoring_vectorized:
+   the three shape checks, and the run from `n_plates, n_thetas, ... = predictions.shape` to `idx3 = np.array(idx3)` ---- *)
+Definition shape3_ne {A B} (a : list (list (list A))) (b : list (list (list B))) : bool :=     (* a.shape != b.shape, 3-d *)
+  let '(p, t, e) := shape3 a in let '(p', t', e') := shape3 b in
+  negb (Nat.eqb p p' && Nat.eqb t t' && Nat.eqb e e').
+Definition shape3z {A} (a : list (list (list A))) : Z * Z * Z :=                               (* a.shape, 3-d *)
+  let '(p, t, e) := shape3 a in (Z.of_nat p, Z.of_nat t, Z.of_nat e).
+Definition dim3_1 {A} (a : list (list (list A))) : Z := Z.of_nat (snd (fst (shape3 a))).       (* a.shape[1], 3-d *)
+(* scipy.special.comb(n, 3, exact=True) *)
+Definition comb3 (n : Z) : Z := if (n <? 3)%Z then 0%Z else (n * (n - 1) * (n - 2) / 6)%Z.
+(* numpy's contract for rng.choice(n, size=k, replace=False): k distinct values of range(n) *)
+Fixpoint zdistinct (l : list Z) : bool :=
+  match l with [] => true | x :: r => negb (existsb (Z.eqb x) r) && zdistinct r end.
+Definition choice_ok (n k : Z) (d : list Z) : bool :=
+  (Z.of_nat (length d) =? k)%Z && forallb (fun x => (0 <=? x)%Z && (x <? n)%Z) d && zdistinct d.
+(* rng.choice(n, size=k, replace=False): ValueError for a negative size (34) or a sample larger than the population (36);
+   otherwise the next recorded answer, refused (97) unless it obeys the contract *)
+Definition rng_choice (n k : Z) (draws : list (list Z)) : result (list Z * list (list Z)) :=
+  if (k <? 0)%Z then Err 34%Z
+  else if (n <? k)%Z then Err 36%Z
+  else match draws with
+       | [] => Err 97%Z
+       | d :: rest => if choice_ok n k d then Ok (d, rest) else Err 97%Z
+       end.
+(* get_combination_at_sorted_index(i, n, 3) = tuple(generate_combination_at_sorted_index(i, n, 3)): Model/Unrank.v *)
+Definition unrank3 (i n : Z) : result (Z * Z * Z) :=
+  dor l <- unrank i n 3;
+  match l with [a; b; c] => Ok (a, b, c) | _ => Err 9%Z end.
+(* idx1, idx2, idx3 = zip( *rows ): the three columns; unpacking an empty zip is a ValueError *)
+Definition unzip3 (l : list (Z * Z * Z)) : result (list Z * list Z * list Z) :=
+  match l with
+  | [] => Err 33%Z
+  | _ => Ok (map (fun t => fst (fst t)) l, map (fun t => snd (fst t)) l, map (fun t => snd t) l)
+  end.
+(* the (idx1, idx2, idx3) index arrays as the model's list of triples *)
+Fixpoint zip3_nat (a b c : list Z) : list triple :=
+  match a, b, c with
+  | x :: a', y :: b', z :: c' => (Z.to_nat x, Z.to_nat y, Z.to_nat z) :: zip3_nat a' b' c'
+  | _, _, _ => []
+  end.
+Definition nat_triples (idx : list Z * list Z * list Z) : list triple :=
+  zip3_nat (fst (fst idx)) (snd (fst idx)) (snd idx).
